@@ -157,7 +157,7 @@ w("    pub is_async: bool, pub flavour: Flavour, pub policy: Policy, pub limit: 
 w("    pub max_memory: Option<usize>, pub weight: Option<f64>,")
 w("    pub tags: &'static [&'static str], pub events: &'static [&'static str], pub deps: &'static [&'static str],")
 w("    pub has_inv_on: bool, pub has_cache_if: bool, pub is_result: bool, pub nkeys: u8,")
-w("    pub call: fn(Key) -> RetObs, pub fut: Option<fn(Key) -> AFut>, pub repr: fn(Key) -> String,")
+w("    pub call: fn(Key) -> RetObs, pub fut: Option<fn(Key) -> AFut>, pub repr: fn(Key) -> String, pub fpp: fn(bool, usize) -> usize,")
 w("}")
 w("")
 
@@ -285,6 +285,7 @@ for i, f in enumerate(FNS):
     for j, ca in enumerate(call_args):
         let_args.append(f"let a{j} = {ca};")
         repr_vals.append(f"&a{j}")
+    w(f"fn fpp_{name}(err: bool, size: usize) -> usize {{ <{ret} as RetVal>::r_build(0, err, size, 0).clone().r_fp() }}")
     w(f"fn repr_{name}(k: Key) -> String {{ {recv_build} {' '.join(let_args)} format!(\"{{:?}}\", ({''.join(v + ', ' for v in repr_vals)})) }}")
     w("")
     flav = "Async" if is_async else ("Thread" if f["scope"] == "thread" else "Sync")
@@ -299,9 +300,11 @@ for i, f in enumerate(FNS):
         f"max_memory: {'None' if memb is None else 'Some(%d)' % memb}, weight: {wt}, "
         f"tags: &[{', '.join(chr(34) + t + chr(34) for t in f['tags'])}], events: &[{', '.join(chr(34) + t + chr(34) for t in f['events'])}], "
         f"deps: &[{', '.join(chr(34) + t + chr(34) for t in f['deps'])}], has_inv_on: {str(f['inv_on']).lower()}, has_cache_if: {str(f['cache_if']).lower()}, "
-        f"is_result: {str(f['ret'].startswith('r')).lower()}, nkeys: {nkeys}, call: call_{name}, fut: {fut}, repr: repr_{name} }},"
+        f"is_result: {str(f['ret'].startswith('r')).lower()}, nkeys: {nkeys}, call: call_{name}, fut: {fut}, repr: repr_{name}, fpp: fpp_{name} }},"
     )
 
+w("/// Footprint of the value the body of function `id` produces for the given script.")
+w("pub fn fp_probe(id: u16, err: bool, size: usize) -> usize { (SPECS[id as usize].fpp)(err, size) }")
 w("pub static SPECS: &[FnSpec] = &[")
 out.extend(specs)
 w("];")
